@@ -282,6 +282,15 @@ run_config(RegisterType rt, bool be, bool cb, const struct cfg *c, int ci)
     do {                                                                                 \
         if (!built) {                                                                    \
             tab_build(&tb, &s);                                                          \
+            if (ci % 4 == 1) {                                                           \
+                /* history: the first initialisation of this table object fails (a     \
+                 * register outside every area), the description is repaired and the   \
+                 * table is initialised again -- it must behave like a fresh one */    \
+                const RegisterAddress good = tb.entries[2].address;                      \
+                tb.entries[2].address = 0x7fff0000u;                                     \
+                (void)register_init(&tb.t);                                              \
+                tb.entries[2].address = good;                                            \
+            }                                                                            \
             RegisterInit ri = register_init(&tb.t);                                      \
             built = true;                                                                \
             if (ri.code != REG_INIT_SUCCESS) {                                           \
